@@ -227,6 +227,21 @@ Theorem C02_P_three_points_locus_sense : forall x1 y1 z1 x2 y2 z2 x3 y3 z3 : R,
 Proof. exact p3_locus_sense. Qed.
 Print Assumptions C02_P_three_points_locus_sense.
 
+(* without the band guard: whenever the nine-entry card is converted at all,
+   the emitted plane has the equation k (n . q - n . p1) with k <> 0 and
+   n = (p2-p1) x (p3-p1): the LOCUS is always the plane through the three
+   points; only the orientation depends on the code's thresholds.  This is
+   the part of the full statement that holds inside the epsilon band
+   (C02_P_three_points_locus_sense is the full statement outside it). *)
+Theorem C02_P_three_points_locus_partial : forall x1 y1 z1 x2 y2 z2 x3 y3 z3 c,
+  let p1 := (x1, y1, z1) in let p2 := (x2, y2, z2) in let p3 := (x3, y3, z3) in
+  let n := p3_normal RS p1 p2 p3 in
+  convert_card RS M_P [x1; y1; z1; x2; y2; z2; x3; y3; z3] = Ok c ->
+  exists ty prm g k, c = [((ty, prm), 1%Z)] /\ f_T4 RS ty prm = Some g /\ k <> 0 /\
+    forall q, g q = k * fM_p RS (vx n) (vy n) (vz n) (scal RS n p1) q.
+Proof. exact p3_locus_any. Qed.
+Print Assumptions C02_P_three_points_locus_partial.
+
 (* planeParamsFromPoints after the cross product: 1/|n| times the plane kept
    by the manual's four rules *)
 Theorem C02_orient_plane_ok : forall n p1 : vec (T:=R),
@@ -245,7 +260,7 @@ Print Assumptions C02_orient_plane_ok.
    cannot be extended to G > 0 *)
 Theorem C02_sq_positive_g_flipped :
   (forall a b c d e f g x y z : R,
-     eval_quadric RS (sq_to_gq RS a b c d e f g x y z) (x, y, z) = Ok g) /\
+     eval_quadric RS (sq_expand RS a b c d e f g x y z) (x, y, z) = Ok g) /\
   (forall A B C D E F G x0 y0 z0 : R, 0 < G ->
      exists c, convert_card RS M_SQ [A; B; C; D; E; F; G; x0; y0; z0] = Ok c /\
        forall p, (neg_coll c p <-> 0 < fM_sq RS A B C D E F G x0 y0 z0 p) /\
